@@ -51,17 +51,6 @@ fn seal_key<A: VA>(base: &[u8; NONCE], seq: u64) -> SealKey<VCs<A>> {
     k
 }
 
-macro_rules! proof {
-    ($name:ident, $body:expr) => {
-        #[kani::proof]
-        #[kani::unwind(40)]
-        #[kani::stub(aranya_crypto::zeroize::optimization_barrier, common::no_barrier)]
-        fn $name() {
-            $body
-        }
-    };
-}
-
 // ---------------------------------------------------------------------------------
 // SealKey sequence bookkeeping
 // ---------------------------------------------------------------------------------
@@ -131,8 +120,18 @@ fn sealkey_seq(k: usize, first_in_place: bool) {
     core::mem::forget(key);
 }
 
-proof!(c40_sealkey_seq_k2, sealkey_seq(2, false));
-proof!(c40_sealkey_seq_k4, sealkey_seq(4, true));
+#[kani::proof]
+#[kani::unwind(40)]
+#[kani::stub(aranya_crypto::zeroize::optimization_barrier, common::no_barrier)]
+fn c40_sealkey_seq_k2() {
+    sealkey_seq(2, false);
+}
+#[kani::proof]
+#[kani::unwind(40)]
+#[kani::stub(aranya_crypto::zeroize::optimization_barrier, common::no_barrier)]
+fn c40_sealkey_seq_k4() {
+    sealkey_seq(4, true);
+}
 
 // ---------------------------------------------------------------------------------
 // memory::State: single loan, sequence continuity, revocation, id monotonicity
@@ -176,106 +175,143 @@ fn ok_or_forget<T>(r: Result<T, Error>) -> Option<T> {
     }
 }
 
-fn memory_single_loan() {
-    let base: [u8; NONCE] = kani::any();
-    let lb: [u8; 32] = kani::any();
-    let label = LabelId::from_bytes(lb);
-    let peer = DeviceId::from_bytes(kani::any());
-    let pt: [u8; 2] = kani::any();
-
-    let state = State::<VCs<ToyAead>>::new();
-    let client = Client::new(state.clone());
-
-    // Two seal channels: ids are handed out in increasing order, never reused.
-    let id0 = match ok_or_forget(state.add(
-        Directed::SealOnly {
-            seal: seal_key::<ToyAead>(&base, 0),
-        },
-        label,
-        peer,
-    )) {
-        Some(id) => id,
-        None => {
-            assert!(false);
-            return;
-        }
-    };
-    let id1 = match ok_or_forget(state.add(
-        Directed::SealOnly {
-            seal: seal_key::<ToyAead>(&base, 0),
-        },
-        label,
-        peer,
-    )) {
-        Some(id) => id,
-        None => {
-            assert!(false);
-            return;
-        }
-    };
-    assert!(id1 > id0);
-
-    // First context for id0.
-    let mut ctx = match ok_or_forget(client.setup_seal_ctx(id0)) {
-        Some(c) => c,
-        None => {
-            assert!(false);
-            return;
-        }
-    };
-    // No second live seal context for the same channel ...
-    assert!(ok_or_forget(client.setup_seal_ctx(id0)).is_none());
-    // ... and no open context on a seal channel.
-    assert!(ok_or_forget(client.setup_open_ctx(id0)).is_none());
-
-    assert!(seal_once(&client, &mut ctx, &pt) == Some(0));
-    assert!(seal_once(&client, &mut ctx, &pt) == Some(1));
-
-    // Table changes on other channels do not disturb the context.
-    let removed_other: bool = kani::any();
-    if removed_other {
-        assert!(ok_or_forget(AranyaState::remove(&state, id1)).is_some());
-    }
-    assert!(seal_once(&client, &mut ctx, &pt) == Some(2));
-
-    // Dropping the context and acquiring a new one continues the sequence (the key
-    // lives in the state, not in the context): numbers are never handed out twice.
-    drop(ctx);
-    let mut ctx = match ok_or_forget(client.setup_seal_ctx(id0)) {
-        Some(c) => c,
-        None => {
-            assert!(false);
-            return;
-        }
-    };
-    assert!(ok_or_forget(client.setup_seal_ctx(id0)).is_none());
-    assert!(seal_once(&client, &mut ctx, &pt) == Some(3));
-
-    // Removing the channel revokes the live context.
-    assert!(ok_or_forget(AranyaState::remove(&state, id0)).is_some());
-    assert!(seal_once(&client, &mut ctx, &pt).is_none());
-    assert!(ok_or_forget(client.setup_seal_ctx(id0)).is_none());
-
-    // A channel added later gets a fresh id, not a recycled one.
-    let id2 = match ok_or_forget(state.add(
-        Directed::SealOnly {
-            seal: seal_key::<ToyAead>(&base, 0),
-        },
-        label,
-        peer,
-    )) {
-        Some(id) => id,
-        None => {
-            assert!(false);
-            return;
-        }
-    };
-    assert!(id2 > id1);
-    kani::cover!(removed_other, "another channel removed between seals");
-    kani::cover!(!removed_other, "no table change between seals");
-    core::mem::forget(ctx);
-    core::mem::forget(client);
-    core::mem::forget(state);
+struct Mem {
+    state: State<VCs<ToyAead>>,
+    client: Client<State<VCs<ToyAead>>>,
+    base: [u8; NONCE],
+    label: LabelId,
+    peer: DeviceId,
+    pt: [u8; 2],
 }
 
-proof!(c40_memory_single_loan, memory_single_loan());
+fn mem() -> Mem {
+    let state = State::<VCs<ToyAead>>::new();
+    let client = Client::new(state.clone());
+    let lb: [u8; 32] = kani::any();
+    Mem {
+        state,
+        client,
+        base: kani::any(),
+        label: LabelId::from_bytes(lb),
+        peer: DeviceId::from_bytes(kani::any()),
+        pt: kani::any(),
+    }
+}
+
+fn add_seal(m: &Mem) -> LocalChannelId {
+    match ok_or_forget(m.state.add(
+        Directed::SealOnly {
+            seal: seal_key::<ToyAead>(&m.base, 0),
+        },
+        m.label,
+        m.peer,
+    )) {
+        Some(id) => id,
+        None => unreachable!(),
+    }
+}
+
+fn seal_ctx(m: &Mem, id: LocalChannelId) -> Option<SealCtx<VCs<ToyAead>>> {
+    ok_or_forget(m.client.setup_seal_ctx(id))
+}
+
+/// No second live seal context for a channel; no open context on a seal channel; a
+/// context can be re-acquired once the first is gone.
+fn single_loan() {
+    let m = mem();
+    let id = add_seal(&m);
+    let ctx = match seal_ctx(&m, id) {
+        Some(c) => c,
+        None => {
+            assert!(false);
+            return;
+        }
+    };
+    assert!(seal_ctx(&m, id).is_none());
+    assert!(ok_or_forget(m.client.setup_open_ctx(id)).is_none());
+    drop(ctx);
+    let again = seal_ctx(&m, id);
+    assert!(again.is_some());
+    kani::cover!(again.is_some(), "re-acquired after drop");
+    core::mem::forget(again);
+    core::mem::forget(m);
+}
+
+/// Seals carry 0, 1; dropping the context and acquiring a new one continues at 2 (the
+/// key lives in the state, not in the context): no number is handed out twice.
+fn continuity() {
+    let m = mem();
+    let id = add_seal(&m);
+    let mut ctx = match seal_ctx(&m, id) {
+        Some(c) => c,
+        None => {
+            assert!(false);
+            return;
+        }
+    };
+    assert!(seal_once(&m.client, &mut ctx, &m.pt) == Some(0));
+    assert!(seal_once(&m.client, &mut ctx, &m.pt) == Some(1));
+    drop(ctx);
+    let mut ctx = match seal_ctx(&m, id) {
+        Some(c) => c,
+        None => {
+            assert!(false);
+            return;
+        }
+    };
+    let s = seal_once(&m.client, &mut ctx, &m.pt);
+    assert!(s == Some(2));
+    kani::cover!(s == Some(2), "sequence continued");
+    core::mem::forget(ctx);
+    core::mem::forget(m);
+}
+
+/// Adding and removing OTHER channels between seals changes nothing; removing the
+/// channel itself revokes the live context.
+fn table_changes() {
+    let m = mem();
+    let id = add_seal(&m);
+    let mut ctx = match seal_ctx(&m, id) {
+        Some(c) => c,
+        None => {
+            assert!(false);
+            return;
+        }
+    };
+    assert!(seal_once(&m.client, &mut ctx, &m.pt) == Some(0));
+    let other = add_seal(&m);
+    // ids are handed out in increasing order
+    assert!(other > id);
+    assert!(seal_once(&m.client, &mut ctx, &m.pt) == Some(1));
+    assert!(ok_or_forget(AranyaState::remove(&m.state, other)).is_some());
+    assert!(seal_once(&m.client, &mut ctx, &m.pt) == Some(2));
+    assert!(ok_or_forget(AranyaState::remove(&m.state, id)).is_some());
+    let s = seal_once(&m.client, &mut ctx, &m.pt);
+    assert!(s.is_none());
+    assert!(seal_ctx(&m, id).is_none());
+    // a channel added later gets a fresh id, not a recycled one
+    let third = add_seal(&m);
+    assert!(third > other);
+    kani::cover!(s.is_none(), "revoked");
+    core::mem::forget(ctx);
+    core::mem::forget(m);
+}
+
+#[kani::proof]
+#[kani::unwind(40)]
+#[kani::stub(aranya_crypto::zeroize::optimization_barrier, common::no_barrier)]
+fn c40_memory_single_loan() {
+    single_loan();
+}
+#[kani::proof]
+#[kani::unwind(40)]
+#[kani::stub(aranya_crypto::zeroize::optimization_barrier, common::no_barrier)]
+fn c40_memory_continuity() {
+    continuity();
+}
+#[kani::proof]
+#[kani::unwind(40)]
+#[kani::stub(aranya_crypto::zeroize::optimization_barrier, common::no_barrier)]
+fn c40_memory_table_changes() {
+    table_changes();
+}
